@@ -556,6 +556,10 @@ def conform(tier):
                           {"pause": 1, "cancel": 1, "sample": 3, "max_nodes": 1500}, s))
     run.add_jobs(jobs_for(F.curated() + F.curated_items()[:10] + F.curated_retry()[:6] + F.random_family(27 + s, n // 2, nmax=4, publish=True),
                           {"rerun": 1, "rerun_tasks": "all", "rerun_multi": True, "probe_rerun": True, "max_nodes": 1500}, s))
+    # providers that acknowledge before running (`requested` / `delayed` first), resume while still pausing
+    run.add_jobs(jobs_for(F.curated() + F.curated_delay() + F.curated_items()[:6] + F.curated_retry()[:6],
+                          {"delayed": "all", "pause": 1, "cancel": 1, "max_nodes": 800}, s, tok="visit"))
+    run.add_jobs(jobs_for(F.curated() + F.curated_items()[:6], {"pause": 1, "resume_early": True, "cancel": 1, "max_nodes": 800}, s))
     # the status tables of the specification against machines.py, cell by cell, both ways
     from . import tlc
     import re
